@@ -15,6 +15,7 @@ def parseTr (t : String) : Option (Tr Sym) :=
 def parseWire (w : String) : Option Wire :=
   match w.toList with
   | ['c'] => some .clear
+  | ['c', _] => some .clear   -- `c<shape>`: cleartext of another size / packet type
   | ['g'] => some .garbage
   | 'o' :: ds => (String.ofList ds).toNat?.map (fun k => .prot k true true)
   | 'O' :: ds => (String.ofList ds).toNat?.map (fun k => .prot k true false)
